@@ -65,6 +65,7 @@ class LogixController:
         self.svc_log = []  # (service name, tag full name, details...) for every tag service executed
         self.clock_us = 1_500_000_000_000_000
         self.max_unconnected = 504
+        self.status_hook = None  # callable(req, info) -> None | (status, ext words, data): status injection (C13)
         self.force_tfrag = 0  # >0: every template read returns at most this many bytes
         self.force_page = 0  # >0: every symbol page holds at most this many entries
 
@@ -79,6 +80,11 @@ class LogixController:
 
     # ------------------------------------------------------------------ dispatch
     def handle(self, req, info):
+        if self.status_hook is not None:
+            forced = self.status_hook(req, info)
+            if forced is not None:
+                status, ext, data = forced
+                return W.build_mr_reply(req.service, status, ext, data)
         try:
             data = self.dispatch(req, info)
             if isinstance(data, tuple):
